@@ -48,7 +48,7 @@ def run(tier, seed, replay=None):
         for i, st in enumerate(states):
             off = rnd.choice([[0, 0, 0], [40, -25, 10], [-300, 200, 100]])
             cases.append({"k": i + 1, "p": list(st["p"]), "a": list(st["a"]), "b": list(st["b"]), "c": list(st["c"]), "t1": st["t1"], "t2": st["t2"], "cut2": st["cut2"],
-                          "unit": rnd.choice([2.0 ** -17, 2.0 ** -20]), "off": off, "den": st["out"]["r"]["den"]})
+                          "unit": rnd.choice([2.0 ** -17, 2.0 ** -20]), "off": off, "den": st["out"]["r"]["den"], "cfg": ("B" if i % 2 else "A")})
         if replay:
             cases = [r["case"]]
         cp, op = os.path.join(work, "cases_%s.ndjson" % variant), os.path.join(work, "obs_%s.ndjson" % variant)
@@ -77,7 +77,7 @@ def run(tier, seed, replay=None):
             mag = max(1e-300, max(abs(x) for v in (o["fn"], o["fa"], o["fb"], o["fc"]) for x in v))
             model = MODEL[variant]
             adhesion = model == 0 and not exact        # the spring model's adhesion amplitude is not a lattice quantity: only its direction is checked
-            recs.append({"k": c["k"], "p": c["p"], "a": c["a"], "b": c["b"], "c": c["c"], "t1": c["t1"], "t2": c["t2"], "cut2": c["cut2"], "cut2a": (4 * c["cut2"] if model == 0 else c["cut2"]), "model": model,
+            recs.append({"k": c["k"], "p": c["p"], "a": c["a"], "b": c["b"], "c": c["c"], "t1": c["t1"], "t2": c["t2"], "cut2": c["cut2"], "adh2n": (c["cut2"] if c.get("cfg") == "B" else (4 * c["cut2"] if model == 0 else c["cut2"])), "adh2d": (4 if c.get("cfg") == "B" else 1), "model": model,
                          "fn": fn, "fa": fa, "fb": fb, "fc": fc, "exact": exact or adhesion, "face_ok": o["face_ok"], "coupled": o["coupled"],
                          "sum_zero": max(abs(x) for x in s) <= 1e-9 * mag, "others_zero": o["others"] == 0, "apex_zero": all(x == 0 for x in o["fapex"])})
         n, bad = vlib.tlc_validate_records(SPEC, "ContactTrace", "ContactTrace.cfg", recs, chunk=1500, par=4, workers=4)
